@@ -18,10 +18,13 @@ import (
 	"sort"
 	"strings"
 
+	"github.com/fxamacker/cbor/v2"
+
 	"github.com/bronlabs/bron-crypto/pkg/base/algebra"
 	"github.com/bronlabs/bron-crypto/pkg/base/curves/k256"
 	"github.com/bronlabs/bron-crypto/pkg/base/curves/pairable/bls12381"
 	"github.com/bronlabs/bron-crypto/pkg/base/mat"
+	"github.com/bronlabs/bron-crypto/pkg/base/serde"
 	pedcom "github.com/bronlabs/bron-crypto/pkg/commitments/pedersencom"
 	"github.com/bronlabs/bron-crypto/pkg/mpc"
 	"github.com/bronlabs/bron-crypto/pkg/mpc/sharing"
@@ -111,6 +114,7 @@ func parseVcase(s string) vcase {
 }
 
 type runner struct {
+	pmCache map[string][]byte
 	a      vh.Args
 	res    *vh.Result
 	perKey map[string]int
@@ -225,6 +229,31 @@ func evalCase[E algebra.PrimeGroupElement[E, FE], FE algebra.PrimeFieldElement[F
 			}
 		}
 		tok := "n" + b01(nerr == nil) + "v" + b01(v) + "b" + b01(b)
+		// the shard decoder is one of the places where this verification is applied: a CBOR shard
+		// carrying this share with this (MSP, V) must be accepted exactly when NewBaseShard accepts
+		if vv != nil && serr == nil && nerr == nil && (r.a.Tier == "thorough" || !strings.HasPrefix(vc.note, "vv-")) {
+			if data := shardCBOR(c, r, vc, m, vv, sh); data != nil {
+				if vc.note == "honest" {
+					// self-check of the assembly: byte-identical to the library's own encoding of the honest shard
+					if hs, e := mpc.NewBaseShard(sh, vv, m); e == nil {
+						if hb, e2 := hs.MarshalCBOR(); e2 == nil && string(hb) != string(data) {
+							r.report(vh.Mismatch{ID: vc.text(), Kind: "corr", Key: "harness-shard-cbor-assembly", Detail: "assembled shard CBOR differs from BaseShard.MarshalCBOR of the honest shard", Case: vc.text(), What: "C05 harness self-check"})
+						}
+					}
+				}
+				var dec mpc.BaseShard[E, FE]
+				var derr error
+				if pn := vh.Safely(func() { derr = dec.UnmarshalCBOR(data) }); pn != "" {
+					prop("baseshard-cbor-panic", pn)
+				} else if derr == nil && !b {
+					prop("baseshard-cbor-accepts-mismatched-share", vc.note+": BaseShard.UnmarshalCBOR accepted a shard whose share NewBaseShard/Verify reject ("+tok+")")
+				} else if derr != nil && b {
+					prop("baseshard-cbor-rejects-valid-shard", vc.note+": "+derr.Error())
+				} else if derr == nil && !dec.Share().Equal(sh) {
+					prop("baseshard-cbor-share-changed", vc.note)
+				}
+			}
+		}
 		switch vc.expect {
 		case "accept":
 			if !v || !b {
@@ -347,6 +376,44 @@ func evalCase[E algebra.PrimeGroupElement[E, FE], FE algebra.PrimeFieldElement[F
 		return "?", modelLine
 	}
 	return "?", modelLine
+}
+
+// shardCBOR assembles the CBOR of a BaseShard ({share, publicMaterial}) from the encoding of the public
+// material (honest MSP + the given verification vector, encoded by the library) and the encoding of the
+// given share: what an honest shard's bytes look like with the share component substituted.
+func shardCBOR[E algebra.PrimeGroupElement[E, FE], FE algebra.PrimeFieldElement[FE]](c *gctx[E, FE], r *runner, vc vcase, m *msp.MSP[FE], vv *feldman.VerificationVector[E, FE], sh *kw.Share[FE]) []byte {
+	if r.pmCache == nil {
+		r.pmCache = map[string][]byte{}
+	}
+	key := c.name + "|" + vc.pol.text() + "|" + strings.SplitN(vc.line, " ", 2)[0]
+	pmBytes, ok := r.pmCache[key]
+	if !ok {
+		pm, err := mpc.NewBasePublicMaterial(m, vv)
+		if err != nil {
+			r.pmCache[key] = nil
+			return nil
+		}
+		pmBytes, err = pm.MarshalCBOR()
+		if err != nil {
+			pmBytes = nil
+		}
+		if len(r.pmCache) > 64 {
+			r.pmCache = map[string][]byte{}
+		}
+		r.pmCache[key] = pmBytes
+	}
+	if pmBytes == nil {
+		return nil
+	}
+	shBytes, err := serde.MarshalCBOR(sh)
+	if err != nil {
+		return nil
+	}
+	out, err := serde.MarshalCBOR(map[string]cbor.RawMessage{"share": shBytes, "publicMaterial": pmBytes})
+	if err != nil {
+		return nil
+	}
+	return out
 }
 
 // H = x·G for a fixed scalar x nobody uses elsewhere (the model treats G, H as independent)
@@ -805,6 +872,6 @@ func main() {
 		fmt.Fprintln(os.Stderr, err)
 		os.Exit(2)
 	}
-	res.Rule = "Feldman and Pedersen dealings over every threshold/unanimity/CNF/hierarchical/gate-tree policy on small holder sets (ID assignments ordinal, sparse, >= 2^40 rotated) plus random policies up to 8 holders (non-ideal MSPs), groups k256 and BLS12-381 G1; per dealing every holder x {honest, every share coordinate +delta, swap, drop, append 0/random, every other claimed holder, unknown holder, every entry of V +delta, V swap/drop/append identity/append random}; combined dealings of 1..5 dealers (sum, tampered sum, missing dealer, length mismatch); ReconstructInTheExponent over all subsets; ReconstructAndVerify honest/tampered. The model sees the exponents of all vector entries (dealer scalars read from the revealed dealer function; published vector checked to be their lift). A case is non-trivial when the scheme can be built and deals."
+	res.Rule = "Feldman and Pedersen dealings over every threshold/unanimity/CNF/hierarchical/gate-tree policy on small holder sets (ID assignments ordinal, sparse, >= 2^40 rotated) plus random policies up to 8 holders (non-ideal MSPs), groups k256 and BLS12-381 G1; per dealing every holder x {honest, every share coordinate +delta, swap, drop, append 0/random, every other claimed holder, unknown holder, every entry of V +delta, V swap/drop/append identity/append random}; combined dealings of 1..5 dealers (sum, tampered sum, missing dealer, length mismatch); ReconstructInTheExponent over all subsets; ReconstructAndVerify honest/tampered; BaseShard.UnmarshalCBOR of the shard CBOR carrying each honest-vector case must agree with NewBaseShard. The model sees the exponents of all vector entries (dealer scalars read from the revealed dealer function; published vector checked to be their lift). A case is non-trivial when the scheme can be built and deals."
 	res.Write(a.Out)
 }
